@@ -54,6 +54,13 @@ def compare(case, m, i):
     return [ctl.strip_ok(x) for x in m] == i and ctl.model_flags(m[-1])[2] == "1"
 
 
+def missing_devices(rng, spec, p=0.25):
+    """partial instrumentation: sensors / intelligent switches that are not installed at all"""
+    ps = net.build(dict(spec, exact=True))
+    names = [f"S{l.name}" for l in ps.lines] + [f"I{d.name}" for d in ps.disconnectors]
+    return [nm for nm in names if rng.random() < p]
+
+
 def fallible_ict(rng, spec):
     """an ICT network for a MainController spec: a few nodes, devices attached at random (some not at all)"""
     ps = net.build(dict(spec, exact=True))
@@ -68,6 +75,8 @@ def gen(rng, nm, na):
     cases = [ctl.gen_scenario(rng, max_lines=rng.choice([3, 5, 7])) for _ in range(nm)]
     for _ in range(na):
         c = ctl.gen_scenario(rng, max_lines=5, ctrl="main")
+        if rng.random() < 0.4:
+            c["spec"]["ctrl"]["nodev"] = missing_devices(rng, c["spec"])
         if rng.random() < 0.7:
             c["spec"]["ctrl"]["ict"] = fallible_ict(rng, c["spec"])
             if rng.random() < 0.85:
